@@ -176,6 +176,9 @@ func concPart(c *vlib.Check, bins map[string]string, byWL map[int]string, thorou
 		for _, s := range scs {
 			c.AddEvals(1)
 			c.Class("replay|" + k.String())
+			if s.Result != nil && (s.Result.Hung || s.Result.Leaked > 0) {
+				s = vlib.Confirm(bins[byWL[k.WL]], s, nil)
+			}
 			feat := fmt.Sprintf("wl%d|defer=%v|mode=%s", k.WL, k.G > 0, s.Mode)
 			switch {
 			case s.Crashed || s.Result == nil:
